@@ -151,3 +151,51 @@ func callsWithPrefix(rel, fn, prefix, coqName string) {
 	})
 	out.Strings[coqName] = strings.Join(names, ",")
 }
+
+// regexSource records the pattern literal of  var name = regexp.MustCompile(`...`)
+func regexSource(rel, name, coqName string) {
+	p := load(rel)
+	for _, f := range p.files {
+		for _, d := range f.Decls {
+			gd, ok := d.(*ast.GenDecl)
+			if !ok {
+				continue
+			}
+			for _, sp := range gd.Specs {
+				vs, ok := sp.(*ast.ValueSpec)
+				if !ok || len(vs.Names) != 1 || vs.Names[0].Name != name || len(vs.Values) != 1 {
+					continue
+				}
+				if ce, ok := vs.Values[0].(*ast.CallExpr); ok && len(ce.Args) == 1 {
+					if tv, ok := p.info.Types[ce.Args[0]]; ok && tv.Value != nil && tv.Value.Kind() == constant.String {
+						out.Strings[coqName] = constant.StringVal(tv.Value)
+						return
+					}
+				}
+			}
+		}
+	}
+	out.Missing = append(out.Missing, rel+"."+name)
+}
+
+// methodCallsWithPrefix: like callsWithPrefix for a method of recv.
+func methodCallsWithPrefix(rel, recv, fn, prefix, coqName string) {
+	p := load(rel)
+	fd := findMethod(p, recv, fn)
+	if fd == nil {
+		out.Missing = append(out.Missing, rel+"."+recv+"."+fn)
+		return
+	}
+	var names []string
+	ast.Inspect(fd.Body, func(n ast.Node) bool {
+		if ce, ok := n.(*ast.CallExpr); ok {
+			if se, ok := ce.Fun.(*ast.SelectorExpr); ok {
+				if id, ok := se.X.(*ast.Ident); ok && id.Name == prefix {
+					names = append(names, se.Sel.Name)
+				}
+			}
+		}
+		return true
+	})
+	out.Strings[coqName] = strings.Join(names, ",")
+}
